@@ -16,7 +16,7 @@ RULE = ("generated declaration families stratified over every Int width 1..17,24
 ASSUMPTIONS = ["reference parser bv/ir.py is trusted (independent positional decoding, explicit bounds checks)",
                "inputs whose control fields drive the cursor >256 bytes beyond the input or >5000 elements are skipped (unspecified)"]
 
-PROF = gen.profile(move=0.08, w={"int": 7, "bits": 4, "data": 5, "seq": 3, "opt": 2, "ref": 2, "refsel": 1, "em": 0})
+PROF = gen.profile(defaults=0.3, move=0.08, w={"int": 7, "bits": 4, "data": 5, "seq": 3, "opt": 2, "ref": 2, "refsel": 1, "em": 0})
 WIDTHS = list(range(1, 18)) + [24, 32]
 
 
